@@ -11,6 +11,6 @@ Extraction "flexv.ml"
   ok check_view alphabet lk scan spec_scan
   validate spec_tokens view_tokens bol_after
   GenOptions.model GenOptions.all_optsets
-  view_tokens_tc rview raccl ok_r check_rview spec_start_r spec_rej_tokens view_rej_tokens view_rej_tokens_tc rej_validate view_rtokens_tc ralts rule_kind sm_run sm_init wtokens sm_sessions validate_o closed_check not_first not_among dec_file dec_set_header dec_tables enc_table enc_set brun binit ledger_ok fault_events delivered m4 escape QS_A QE_A QS_B QE_B wrap requests run_ok unread unputs u_unread spec_rej_tokens_ln eol_ok can_nl nl_word head_re rule_re StackGrow.trace bs_init nview nacc members set_of wf_nfa
+  view_tokens_tc rview raccl ok_r check_rview spec_start_r spec_rej_tokens view_rej_tokens view_rej_tokens_tc rej_validate view_rtokens_tc ralts rule_kind sm_run sm_init wtokens sm_sessions validate_o closed_check not_first not_among dec_file dec_set_header dec_tables enc_table enc_set brun binit ledger_ok fault_events delivered m4 escape QS_A QE_A QS_B QE_B wrap requests run_ok unread unputs u_unread spec_rej_tokens_ln eol_ok can_nl nl_word head_re rule_re StackGrow.trace bs_init nview nacc members set_of wf_nfa dview ec_consistent ec_rep
   PositiveMap.empty PositiveMap.add PositiveMap.find PositiveMap.elements
   N.of_nat N.to_nat Z.of_nat Z.of_N Z.to_N.
